@@ -77,3 +77,12 @@ pub fn aligned_len(max_words: usize) -> impl Strategy<Value = usize> {
         1 => (0usize..=max_words).prop_map(|w| w * 4),
     ]
 }
+
+/// vector whose length is drawn from a (weighted) strategy
+pub fn vec_of<S>(elem: S, len: impl Strategy<Value = usize>) -> impl Strategy<Value = Vec<S::Value>>
+where
+    S: Strategy + Clone + 'static,
+    S::Value: std::fmt::Debug,
+{
+    len.prop_flat_map(move |n| proptest::collection::vec(elem.clone(), n))
+}
